@@ -24,6 +24,15 @@
 (* layer.  The harness replays the behaviours into the real code and       *)
 (* compares what the real database returns with `obs' (rendered from the   *)
 (* property layer).                                                        *)
+(*                                                                         *)
+(* Also modelled: explicit cursors held across operations (CurOps), clean  *)
+(* Close/Open, and a power-loss variant of Crash (PowerLoss) in which      *)
+(* block files fall back to their last Sync.  Known defects of the code    *)
+(* appear as the implementation layer disagreeing with the property layer  *)
+(* in a narrowly excused way (Excused: index rows whose file pruning       *)
+(* deleted or a roll-over closed unsynced); `obs.io' shows them to the     *)
+(* harness, which reports them under their own keys when the real code     *)
+(* reproduces them and reports everything else as a violation.             *)
 (***************************************************************************)
 EXTENDS Naturals, Integers, Sequences, FiniteSets, TLC
 
@@ -183,7 +192,7 @@ RenderM(m) ==
 \* io: blocks the implementation layer predicts to be indexed but unreadable
 \* in that view (non-empty only for the known pruning defects).
 RenderV(m, io) == [kv |-> RenderM(m).kv, blk |-> m.blk, io |-> io,
-                   ior |-> {b \in io : Eff[IKey(b)].f \in rolledRaw}]
+                   ior |-> {b \in io : Eff[IKey(b)].f \in rolledRaw \ everPruned}]
 \* the explicit cursor of a transaction: where it stands and, when it has
 \* moved since the last update, the value there
 RenderCur(t) ==
